@@ -279,6 +279,10 @@ func (c *c17) hv(hc HVCase) {
 		text, vj = hvScalarText(hc.Ty, v), v
 	}
 	idl := fmt.Sprintf("namespace go hv\nstruct Req {\n  1: required %s f (%s = \"k\")\n  2: optional string plain\n}\nservice S { Req M(1: Req r) }\n", tyw, hmAnno[hc.Src])
+	if hc.Src == "body" {
+		// two fields take the same member of the JSON body: the request object is asked for it twice
+		idl = fmt.Sprintf("namespace go hv\nstruct Req {\n  1: required %s f (api.body = \"k\")\n  2: optional string plain\n  3: required %s g (api.body = \"k\")\n}\nservice S { Req M(1: Req r) }\n", tyw, tyw)
+	}
 	desc, ok := c.descs[idl]
 	if !ok {
 		svc, err := thrift.NewDescritorFromContent(context.Background(), "hv.thrift", idl, nil, true)
@@ -289,7 +293,7 @@ func (c *c17) hv(hc HVCase) {
 		desc = fn.Request().Struct().FieldById(1).Type()
 		c.descs[idl] = desc
 	}
-	ev := map[string]interface{}{"ev": "HV", "ty": hc.Ty, "v": vj, "src": hc.Src, "st": "ok", "t": 0, "got": B{}, "plain": false, "txt": text, "case": hc}
+	ev := map[string]interface{}{"ev": "HV", "ty": hc.Ty, "v": vj, "src": hc.Src, "st": "ok", "t": 0, "got": B{}, "got2": B{}, "plain": false, "txt": text, "case": hc}
 	func() {
 		defer func() {
 			if e := recover(); e != nil {
@@ -302,6 +306,14 @@ func (c *c17) hv(hc HVCase) {
 		}
 		body := []byte(`{"plain":"pp"}`)
 		ctype := "application/json"
+		if hc.Src == "body" {
+			member := text
+			if hc.Ty == "string" {
+				q, _ := json.Marshal(text)
+				member = string(q)
+			}
+			body = []byte(`{"plain":"pp","k":` + member + `}`)
+		}
 		if hc.Src == "form" {
 			f := url.Values{}
 			f.Set("k", text)
@@ -351,6 +363,8 @@ func (c *c17) hv(hc HVCase) {
 				ev["t"], ev["got"] = int(f.V.T), B(f.V.Enc(nil))
 			case 2:
 				ev["plain"] = string(f.V.B) == "pp"
+			case 3:
+				ev["got2"] = B(f.V.Enc(nil))
 			}
 		}
 		if cnt != 1 {
